@@ -168,6 +168,17 @@ def bounded_tree_laws(p):
     got = expect(lambda: view.copy_and_set(Key.SKIP, marker).data)
     if not S.check(got[0] == 'ok' and _eq(got[1], snapshot), dict(tree=repr(t), law='SKIP leaves the tree'), f'copy_and_set(SKIP) = {got}', cls='skip'):
       return S.result()
+  # values that are tuple SUBCLASSES (NamedTuple, Key) are single values, not multiple outputs
+  import collections
+  Score = collections.namedtuple('Score', ['value'])
+  Pair = collections.namedtuple('Pair', ['a', 'b'])
+  for val in (Score(0.5), Pair(1, 2), Key(('x', 'y'))):
+    for keys in (('pred',), Key(('pred',)), 'pred'):
+      v = TreeMapView({'other': 1})
+      got = expect(lambda: v.copy_and_set(keys, val).data)
+      ok = got[0] == 'ok' and got[1].get('pred') == val and type(got[1].get('pred')) is type(val) and got[1].get('other') == 1
+      if not S.check(ok, dict(law='tuple-subclass value stored as one value', value=repr(val), keys=repr(keys)), f'copy_and_set({keys!r}, {val!r}) -> {got}', cls=f'namedtuple-{type(val).__name__}-{type(keys).__name__}'):
+        return S.result()
   # root leaves (finding D12)
   for root in (0, '', None, 5, 'x'):
     got = expect(lambda: [tuple(k) for k in TreeMapView(root).keys()])
